@@ -54,8 +54,11 @@ def check_object(ctx, case):
     try:
         x = g.obj(name, case["depth"])
     except Exception as e:
+        # every class of the regenerated table is generatable on the unchanged tree: a class the generator no longer
+        # understands is a part of the code the property is no longer shown for (reported, never silent)
         ctx.count("ungeneratable:" + name)
         ctx.extra.setdefault("ungeneratable", {})[name] = f"{type(e).__name__}: {str(e)[:120]}"
+        ctx.diff("typegen", case, "an instance of " + name, f"{type(e).__name__}: {str(e)[:200]}")
         return
     cls = type(x)
     try:
@@ -72,6 +75,17 @@ def check_object(ctx, case):
         err = None
     except Exception as e:
         y, err = None, e
+    if err is None and hash(case["seed"]) % 3 == 0:
+        # decoding is a function of the bytes: the same bytes decoded again (same process) give an equal, independent object
+        try:
+            y2 = cls.from_cbor(bytes(b))
+            again = (y2 == y)
+        except Exception as e:
+            y2, again = None, f"{type(e).__name__}: {str(e)[:120]}"
+        ctx.count("decoded-twice")
+        if again is not True:
+            ctx.violation(f"{name}: decoding the same bytes a second time does not give the object of the first time", desc, repr(y)[:300],
+                          again if isinstance(again, str) else repr(y2)[:300])
     if err is not None:
         ctx.violation(f"{name}: the encoded object cannot be decoded with the same type ({type(err).__name__}: {str(err)[:160]})",
                       desc, "an equal object", classify(err))
